@@ -177,7 +177,9 @@ int detect_alphabet(struct msa* msa)
         dna_prob = 0.0;
         prot_prob = 0.0;
         for(i = 0; i < 128;i++){
-                if(msa->letter_freq[i]){
+                /* only residue letters vote: gap symbols and padding are counted in
+                   letter_freq too, but say nothing about the kind of sequence  */
+                if(msa->letter_freq[i] && isalpha(i)){
                         dna_prob += DNA[i] * (double) msa->letter_freq[i];
                         prot_prob += protein[i]* (double) msa->letter_freq[i];
                 }
